@@ -37,7 +37,8 @@ package decoders
 //@ func (d *jsonlineDecoder) scanAmmos
 //@ props C08 C07
 //@ ghost n = len(d.ammos)
-//@ requires imp(n > 0, d.passNum == d.ammoNum / n)
+//@ requires imp(n > 0, d.passNum == d.ammoNum / n) && forall(k, 0, n, d.ammos[k] != nil)
+//@ ensures [delivers-an-entry] imp(result1 == nil, result0 != nil)
 //@ ensures [count] imp(result1 == nil, d.ammoNum == old(d.ammoNum) + 1)
 //@ ensures [passes] imp(result1 == nil && n > 0, d.passNum == d.ammoNum / n)
 //@ ensures [order] imp(result1 == nil, result0 == d.ammos[old(d.ammoNum) % n])
@@ -45,6 +46,38 @@ package decoders
 //@ ensures [no-ammo] imp(n == 0, result1 == ErrNoAmmo)
 //@ ensures [error-keeps-counters] imp(result1 != nil, d.ammoNum == old(d.ammoNum) && d.passNum == old(d.passNum))
 //@ modifies d.ammoNum, d.passNum
+
+// ---------------------------------------------------------------- http/json, array form
+
+//@ func (d *jsonlineDecoder) readArray
+//@ props C07 C09 C13
+//@ env pooltype(d.pool, *ammo.Ammo)
+//@ loop 0 invariant len(result) == len(data) && d.decodedConfigHeaders == old(d.decodedConfigHeaders)
+//@ loop 0 step [every-entry-gets-its-own-copy-of-the-configured-headers] calls(d.decodedConfigHeaders.Clone) - iter(calls(d.decodedConfigHeaders.Clone)) == 1
+//@ loop 0 step [entries-in-file-order] result[rangeidx-1] == box(a) && a != nil
+//@ loop 0 step [earlier-entries-stay] forall(k, 0, rangeidx-1, result[k] == iter(result)[k])
+//@ at call a.Setup assert [entry-fields] arg(method) == datum.Method && arg(url) == "http://" + datum.Host + datum.URI && arg(tag) == datum.Tag
+//@ at call a.Setup assert [body-bytes] imp(datum.Body == "", len(arg(body)) == 0) && imp(datum.Body != "", len(arg(body)) == len(datum.Body))
+//@ at call a.Setup assert [headers-of-this-entry] arg(header) == result_of(d.decodedConfigHeaders.Clone, 0)
+//@ at call header.Set assert [in-file-header-overrides-the-configured-one] arg(a0) == k && arg(a1) == v
+//@ loop 0 invariant forall(k, 0, rangeidx, result[k] != nil)
+//@ ensures [one-entry-per-array-element] imp(result1 == nil, len(result0) == len(data) && forall(k, 0, len(result0), result0[k] != nil))
+
+// http/json, one object after another (streaming form)
+//@ func (d *jsonlineDecoder) Scan
+//@ props C07 C08 C09 C13
+//@ env pooltype(d.pool, *ammo.Ammo)
+//@ requires imp(len(d.ammos) > 0, d.passNum == d.ammoNum / len(d.ammos)) && forall(k, 0, len(d.ammos), d.ammos[k] != nil)
+//@ ensures [limit] imp(d.config.Limit != 0 && old(d.ammoNum) >= d.config.Limit, result1 == ErrAmmoLimit && d.ammoNum == old(d.ammoNum) && d.passNum == old(d.passNum))
+//@ ensures [count] imp(result1 == nil, d.ammoNum == old(d.ammoNum) + 1 && result0 != nil)
+//@ ensures [no-delivery-across-the-pass-bound] imp(result1 == nil && d.config.Passes != 0 && old(d.passNum) < d.config.Passes, d.passNum < d.config.Passes || len(d.ammos) > 0)
+//@ ensures [passes-count-up] d.passNum >= old(d.passNum)
+//@ loop 0 invariant d.ammoNum == old(d.ammoNum) && d.passNum >= old(d.passNum) && d.ammos == old(d.ammos) && d.decodedConfigHeaders == old(d.decodedConfigHeaders)
+//@ loop 0 step [a-pass-ends-only-at-the-end-of-the-file] result_of(d.decoder.Decode, 0) == io.EOF && d.passNum == iter(d.passNum) + 1
+//@ at call a.Setup assert [entry-fields] arg(method) == da.Method && arg(url) == "http://" + da.Host + da.URI && arg(tag) == da.Tag
+//@ at call a.Setup assert [body-bytes] imp(da.Body == "", len(arg(body)) == 0) && imp(da.Body != "", len(arg(body)) == len(da.Body))
+//@ at call a.Setup assert [headers-of-this-entry] arg(header) == result_of(d.decodedConfigHeaders.Clone, 0)
+//@ at call header.Set assert [in-file-header-overrides-the-configured-one] arg(a0) == k && arg(a1) == v
 
 // ---------------------------------------------------------------- uripost
 
@@ -60,6 +93,7 @@ package decoders
 //@ loop 0 invariant imp(d.config.Passes != 0 && old(d.passNum) < d.config.Passes, i == 0 || d.passNum < d.config.Passes)
 //@ loop 0 invariant imp(i > 0, d.header != old(d.header) && fresh(d.header)) && imp(i == 0, d.header == old(d.header))
 //@ loop 1 invariant d.ammoNum == old(d.ammoNum) && d.passNum == old(d.passNum) + i
+//@ loop 0 step [a-pass-ends-only-at-the-end-of-the-file] result_of(d.readBlock, 1) == io.EOF
 //@ loop 1 invariant imp(i > 0, d.header != old(d.header) && fresh(d.header)) && imp(i == 0, d.header == old(d.header))
 //@ modifies d.ammoNum, d.passNum, d.header, elems(d.header)
 
@@ -72,6 +106,9 @@ package decoders
 //@ ensures [blank-line-yields-nothing] imp(result_of(reader.ReadString, 1) == nil && len(strings.TrimSpace(result_of(reader.ReadString, 0))) == 0, result0 == nil && result1 == nil)
 //@ at call a.Setup assert [post-request] arg(method) == "POST" && arg(url) == result_of(uripost.DecodeURI, 1) && arg(tag) == result_of(uripost.DecodeURI, 2)
 //@ at call a.Setup assert [body-has-the-announced-size] len(arg(body)) == result_of(uripost.DecodeURI, 0)
+//@ at call io.ReadFull assert [body-is-read-from-the-file-right-after-the-line] arg(a0) == box(reader0) && len(arg(a1)) == result_of(uripost.DecodeURI, 0)
+//@ ensures [body-is-read-completely] imp(calls(a.Setup) == 1 && result_of(uripost.DecodeURI, 0) != 0, calls(io.ReadFull) == 1 && result_of(io.ReadFull, 1) == nil && result_of(io.ReadFull, 0) == result_of(uripost.DecodeURI, 0))
+//@ ensures [truncated-body-is-an-error-not-an-end-of-file] imp(calls(io.ReadFull) == 1 && result_of(io.ReadFull, 1) != nil, result1 != nil && result1 != io.EOF && result0 == nil)
 //@ at call uripost.DecodeURI assert [whole-trimmed-line] arg(uriString) == result_of(strings.TrimSpace, 0)
 //@ env [config-header-keys-are-canonical] forall_t(q, string, imp(has(d.decodedConfigHeaders, q), canon(q) == q))
 //@ env commonHeader != nil
